@@ -240,6 +240,17 @@ def RenameOk (rule : RenameRule) (ident : String) : Prop :=
 theorem rename_ok_unless_camel (rule : RenameRule) (ident : String) (h : rule ≠ .camel) : RenameOk rule ident := by
   cases rule <;> first | exact absurd rfl h | (constructor <;> exact Outcome.returns_ok _)
 
+/-- **Known finding F8**: without `RenameOk` the statement is false of the model — as of the code.
+    `rename_all = "camelCase"` on a field named `__` panics (nothing is left after Pascal-casing),
+    and so does a variant whose first character is not ASCII. -/
+theorem F8_witness_underscores : ¬ RenameOk .camel "__" := by
+  intro h
+  exact h.1 "byte index 1 is out of bounds" rfl
+
+theorem F8_witness_non_ascii : ¬ RenameOk .camel "Émile" := by
+  intro h
+  exact h.2 "byte index 1 is not a char boundary" rfl
+
 theorem resolveField_returns (core : CoreOpts) (ident : String) (ty : Ty) (s : FieldOpts)
     (h : RenameOk core.renameRule ident) : (resolveField core ident ty s).Returns := by
   unfold resolveField
